@@ -35,8 +35,10 @@ type Block struct {
 	Pure     bool
 	Trusted  bool
 	Inline   bool
+	Abstract bool // modelled as an uninterpreted pure function of its arguments (assumption, listed)
 	Fresh    bool // result is a freshly allocated object
 	Modifies []string
+	Preserves []string // locations assumed unchanged by dynamic calls (trusted frame assumption, listed)
 	HasMod   bool
 	Uses     []string
 	Unfolds  []Clause
@@ -46,6 +48,7 @@ type Block struct {
 	File     string
 	Line     int
 	Parent   *Block
+	PreShift map[string]int // handler twin: "v.pc" -> -1 (the contract's pre-state is the state before the fetch)
 }
 
 type SpecFun struct {
@@ -59,7 +62,7 @@ type SpecFun struct {
 
 var clauseKw = map[string]bool{"props": true, "requires": true, "ensures": true, "fails_iff": true, "nopanic": true,
 	"pure": true, "trusted": true, "inline": true, "modifies": true, "uses": true, "loop": true, "opcase": true,
-	"assume": true, "unfold": true, "fresh": true, "let": true}
+	"assume": true, "unfold": true, "fresh": true, "let": true, "preserves": true, "abstract": true}
 var blockKw = map[string]bool{"iface": true, "functype": true, "func": true, "closure": true, "spec": true, "define": true, "axioms": true, "lemma": true}
 
 var labelRe = regexp.MustCompile(`^#([A-Za-z0-9_.\-]+)\s+`)
@@ -238,6 +241,8 @@ func (P *Program) ParseContracts(mirrorDir, specDir string) error {
 					tgt.Trusted = true
 				case "inline":
 					tgt.Inline = true
+				case "abstract":
+					tgt.Abstract = true
 				case "fresh":
 					tgt.Fresh = true
 				case "modifies":
@@ -245,6 +250,12 @@ func (P *Program) ParseContracts(mirrorDir, specDir string) error {
 					for _, m := range strings.Split(rest, ",") {
 						if m = strings.TrimSpace(m); m != "" && m != "fresh" {
 							tgt.Modifies = append(tgt.Modifies, m)
+						}
+					}
+				case "preserves":
+					for _, m := range strings.Split(rest, ",") {
+						if m = strings.TrimSpace(m); m != "" {
+							tgt.Preserves = append(tgt.Preserves, m)
 						}
 					}
 				case "uses":
@@ -300,7 +311,41 @@ func (P *Program) ParseContracts(mirrorDir, specDir string) error {
 			}
 		}
 	}
+	P.synthHandlers()
 	return nil
+}
+
+// synthHandlers: every opcase OP_X of vm.switchThreading is also the
+// contract of the generated function vm.OP_X_Handler (callthread.go).
+func (P *Program) synthHandlers() {
+	sw, ok := P.Blocks["vm.switchThreading"]
+	if !ok {
+		return
+	}
+	for _, oc := range sw.Opcases {
+		if oc.Name == "OP_RETURN" {
+			continue
+		}
+		name := "vm." + oc.Name + "_Handler"
+		if _, dup := P.Blocks[name]; dup {
+			continue
+		}
+		b := &Block{Kind: "func", Name: name, PkgPath: sw.PkgPath, Props: oc.Props, Loops: map[int]*LoopSpec{}, File: oc.File, Line: oc.Line,
+			NoPanic: oc.NoPanic, FailsIff: oc.FailsIff, Ensures: oc.Ensures, PreShift: map[string]int{"v.pc": -1}}
+		b.Uses = append(append([]string{}, sw.Uses...), oc.Uses...)
+		b.Lets = append(append([]Clause{}, sw.Lets...), oc.Lets...)
+		b.Requires = append([]Clause{}, sw.Requires...)
+		if ls, ok := sw.Loops[1]; ok {
+			b.Requires = append(b.Requires, ls.Invariants...)
+		}
+		b.Requires = append(b.Requires, oc.Requires...)
+		// the (single) inner loop of the case is loop 1 of the handler
+		for _, ls := range oc.Loops {
+			b.Loops[1] = ls
+		}
+		P.Blocks[name] = b
+		P.BlockL = append(P.BlockL, b)
+	}
 }
 
 func ifEmpty(s, d string) string {
